@@ -189,3 +189,11 @@ def read_transition(stream, previous):
     before = stream.left
     v = r.read_zone_interval_transition(previous)
     return (v, before - stream.left)
+
+
+def read_offset_any(stream):
+    """read_offset on any stream: the offset and the number of bytes consumed"""
+    r = reader_on(stream)
+    before = stream.left
+    v = r.read_offset()
+    return (v, before - stream.left)
